@@ -50,6 +50,14 @@ impl<'a> Tape<'a> {
     }
     pub fn pick<'b, T>(&mut self, items: &'b [T]) -> &'b T { &items[self.below(items.len())] }
     pub fn i32_any(&mut self) -> i32 { self.raw() as i32 }
+    /// Draw one value and expand it deterministically into `n` pseudo-random choices (all zero for seed 0):
+    /// lets bulky, low-interest data (register valuations) cost a single tape cell.
+    pub fn fork(&mut self, n: usize) -> Vec<u32> {
+        let seed = self.raw();
+        if seed == 0 { return vec![0; n]; }
+        let mut x = (seed as u64).wrapping_mul(0x9E3779B97F4A7C15) | 1;
+        (0..n).map(|_| { x ^= x << 13; x ^= x >> 7; x ^= x << 17; (x >> 20) as u32 }).collect()
+    }
 }
 
 // =============================================================================
